@@ -99,10 +99,19 @@ def _ed_witness(case, vals, gvals):
 
 extract_default.witness = _ed_witness
 
-# as a callee of set_default_doc (removal branch): a deterministic function of the prose
+# as a callee (set_default_doc's removal branch, interpolate_defaults): one outcome per Python type of the extracted default.
+# Every `holds` clause is one the function's own contract proves (E1, E6) or the definition of an uninterpreted, deterministic
+# function of the prose (`ed_doc`: what removal returns) - "extract_default is a deterministic function of its arguments".
+_ED_COMMON = [
+    "not emit_default_doc or result[0] == line",
+    "not (emit_default_doc == False and typ is None and default_search_announce is None and rstrip_default == True) or result[0] == ed_doc(line)",
+]
 extract_default.outcomes = [
-    Outcome("removal", ("tuple", ["str", "obj"]), ["result[0] == ed_doc(line)"],
-            when="emit_default_doc == False and typ is None and default_search_announce is None and rstrip_default == True"),
+    Outcome("no-default", ("tuple", ["str", None]), ["result[0] == line"] + _ED_COMMON),
+    Outcome("str", ("tuple", ["str", "str"]), _ED_COMMON),
+    Outcome("int", ("tuple", ["str", "int"]), _ED_COMMON),
+    Outcome("bool", ("tuple", ["str", "bool"]), _ED_COMMON),
+    Outcome("float", ("tuple", ["str", ("obj", "float")]), _ED_COMMON),
 ]
 
 needs_quoting = Contract(
@@ -246,4 +255,51 @@ sdd_idempotent = Contract(
 
 sdd_idempotent.witness = _sdd_witness
 
-CONTRACTS = [extract_default, needs_quoting, set_default_doc, sdd_idempotent]
+
+def _id_cases():
+    out = []
+    for req in (False, True):
+        for tk, tspec in (("notyp", None), ("typ", "str")):
+            d = {"doc": "str"}
+            if tspec:
+                d["typ"] = tspec
+            out.append(Case("require=%s,%s" % (req, tk), {"param": ("tuple", ["str", ("dict", d)]), "default_search_announce": None,
+                                                       "require_default": req, "emit_default_doc": True}))
+    out.append(Case("nodoc,require", {"param": ("tuple", ["str", ("dict", {"typ": "str"})]), "default_search_announce": None,
+                                      "require_default": True, "emit_default_doc": True}))
+    return out
+
+
+_UNQ = ("(g_default[1:-1] if len(g_default) >= 2 and g_default[0] == g_default[-1] and g_default[0] in ('\"', \"'\") else g_default)")
+
+interpolate_defaults = Contract(
+    "doctrans.emitter_utils:interpolate_defaults",
+    properties=["C17", "C01"],
+    note="extract_default is applied by contract (one outcome per type of the extracted default)",
+    cases=_id_cases(),
+    use_contract_for=["doctrans.defaults_utils:extract_default"],
+    ghosts={"doc, default = extract_default(": [("g_default", "default")]},
+    ensures=[
+        Clause("ID1", "result[0] == param[0] and result[1] is param[1]", note="same name, same dict object"),
+        Clause("ID2", "result[1]['doc'] == old_param[1]['doc']", when=[c.name for c in _id_cases() if c.name.startswith("require")],
+               note="with default text kept the prose is unchanged"),
+        Clause("ID3", "('typ' in old_param[1]) == ('typ' in result[1]) and (not ('typ' in result[1]) or result[1]['typ'] == old_param[1]['typ'])",
+               note="frame: the type is untouched"),
+        Clause("ID4", "g_default is None or not typeis(g_default, 'str') or result[1]['default'] == %s" % _UNQ,
+               when=[c.name for c in _id_cases() if c.name.startswith("require")], note="a string default is stored unquoted (one layer)"),
+        Clause("ID5", "g_default is None or typeis(g_default, 'str') or result[1]['default'] == g_default",
+               when=[c.name for c in _id_cases() if c.name.startswith("require")], note="int / bool / float defaults are stored as extracted (type kept)"),
+        Clause("ID6", "g_default is not None or ('default' in result[1]) == False", when=["require=False,notyp", "require=False,typ"],
+               note="nothing announced and no default required: no default is invented"),
+        Clause("ID7", "g_default is not None or result[1]['default'] == '```(None)```'", when=["require=True,notyp"],
+               note="a required default without type is the None spelling"),
+        Clause("ID8", "g_default is not None or (result[1]['typ'] == 'int' and result[1]['default'] == 0) or (result[1]['typ'] == 'str' and result[1]['default'] == '') "
+                      "or (result[1]['typ'] == 'bool' and result[1]['default'] == False) or (result[1]['typ'] == 'float' and result[1]['default'] == 0.0) "
+                      "or (result[1]['typ'] == 'complex' and result[1]['default'] == 0j) "
+                      "or (result[1]['typ'] not in ('int', 'str', 'bool', 'float', 'complex') and result[1]['default'] == '```(None)```')",
+               when=["require=True,typ"], note="a required default of a scalar type is its zero value, otherwise the None spelling"),
+    ],
+    canaries=["g_default is None"],
+)
+
+CONTRACTS = [extract_default, needs_quoting, set_default_doc, sdd_idempotent, interpolate_defaults]
